@@ -82,3 +82,27 @@ package cesium
 //@   pragma opaque_func_values
 //@   assert_before "err = db.openVirtualOrUnary(ctx, Channel{Key: ChannelKey(key)})" SpecDirHasMeta(key)
 //@   loop 0 modifies nothing
+
+//@ # ---------------------------------------------------------------- a write by one index group (C05)
+//@ # "every other writer's writes are reported unauthorized and have no effect": a series whose
+//@ # channel writer refused it (ErrUnauthorized), or that is held back because the group lost its
+//@ # index channel, is listed in *excludeUnauthorized so that it is neither counted nor relayed;
+//@ # any other error aborts the write.
+//@ ignore func (w *idxWriter) validateWrite() error
+//@ ignore func (w *idxWriter) updateHighWater() error
+//@ ignore func (w *idxWriter) resolveAlignment() telem.Alignment
+//@ func (w *idxWriter) write(excludeUnauthorized *[]ChannelKey, fr Frame) (out Frame, err error)
+//@   pragma abstract ShouldExcludeRaw Len SampleIndex
+//@   pragma wraps sample counts
+//@   overflow off
+//@   requires excludeUnauthorized != nil && len(fr.RawKeys()) == len(fr.RawSeries())
+//@   requires forall k ChannelKey :: __in(w.internal, k) ==> w.internal[k] != nil
+//@   # pass 1: the index channel's series was refused
+//@   assert_after "idxUnauthorized = true" len(*excludeUnauthorized) > 0 && (*excludeUnauthorized)[len(*excludeUnauthorized)-1] == key
+//@   # pass 2: held back because the index channel was refused; refused by its own gate
+//@   assert_before "continue#5" len(*excludeUnauthorized) > 0 && (*excludeUnauthorized)[len(*excludeUnauthorized)-1] == key
+//@   assert_before "continue#6" len(*excludeUnauthorized) > 0 && (*excludeUnauthorized)[len(*excludeUnauthorized)-1] == key && __is(accumulatedErr, xcontrol.ErrUnauthorized)
+//@   # an error is returned as soon as it is not an authorization refusal
+//@   modifies w, excludeUnauthorized
+//@   loop 0 modifies excludeUnauthorized, w
+//@   loop 1 modifies excludeUnauthorized, w
